@@ -166,7 +166,7 @@ func (c *ctx) genIndex(n int) int {
 		if n > 0 {
 			k = c.rnd.Intn(n)
 		}
-		return k + c.pick(1<<32, -(1 << 32), 1<<33, 1<<16, -(1 << 16), 1<<62)
+		return k + c.pick(1<<32, -(1<<32), 1<<33, 1<<16, -(1<<16), 1<<62)
 	default:
 		if n == 0 {
 			return 0
